@@ -232,8 +232,19 @@ func c15Run(in *c15Input) Res {
 					out = append(out, ks)
 				}
 			case "rename":
+				if !fs && len(out)%2 == 0 {
+					// as `wrgl branch -m` does it: the package-level helper (reads the source, then renames)
+					_, err := ref.RenameRef(rs, s(1), s(2))
+					okErr(err)
+					break
+				}
 				okErr(rs.Rename(s(1), s(2)))
 			case "copy":
+				if !fs && len(out)%2 == 0 {
+					_, err := ref.CopyRef(rs, s(1), s(2))
+					okErr(err)
+					break
+				}
 				okErr(rs.Copy(s(1), s(2)))
 			case "rejrename", "rejcopy", "rejset":
 				// file store only (c15FsDomain a7): the destination cannot be a file
